@@ -6,6 +6,7 @@ package main
 import (
 	"fmt"
 	"sync/atomic"
+	"time"
 
 	"github.com/Tom-Johnston/mamba/graph"
 )
@@ -109,9 +110,9 @@ func (g *BGr) key() string {
 }
 
 func bigCanon(g *BGr) (string, string, string) {
-	var p []int
-	if msg, pan := try(func() { p = append([]int(nil), graph.CanonicalIsomorph(g.dense())...) }); pan {
-		return "", "canonical/panic", msg
+	p, cl, what := canonTimed(g.dense())
+	if cl != "" {
+		return "", cl, what
 	}
 	if !isPerm(p, g.n) {
 		return "", "canonical/not-a-permutation", fmt.Sprint(p)
@@ -448,6 +449,181 @@ func c01Big(c *Ctx) {
 		})
 		c.Nontrivial(int64(len(perms)))
 		c.Count("big_"+name+"_relabellings", int64(len(perms)))
+	}
+}
+
+// ---- graphs with more than 64 vertices (canonical positions beyond one machine word) ----
+
+// canonTimed runs CanonicalIsomorph under a deadline (a labelling that does not come back is a failure too).
+func canonTimed(g graph.Graph) (p []int, class, what string) {
+	type res struct {
+		p   []int
+		msg string
+		pan bool
+	}
+	ch := make(chan res, 1)
+	go func() {
+		var q []int
+		msg, pan := try(func() { q = append([]int(nil), graph.CanonicalIsomorph(g)...) })
+		ch <- res{q, msg, pan}
+	}()
+	select {
+	case r := <-ch:
+		if r.pan {
+			return nil, "canonical/panic", r.msg
+		}
+		return r.p, "", ""
+	case <-time.After(90 * time.Second):
+		return nil, "canonical/does-not-terminate", "no result within 90s"
+	}
+}
+
+func egCanon(g *EG) (string, string, string) {
+	p, cl, what := canonTimed(libGraphFromEG(g, "dense"))
+	if cl != "" {
+		return "", cl, what
+	}
+	if !isPerm(p, g.N) {
+		return "", "canonical/not-a-permutation", fmt.Sprint(p)
+	}
+	inv := make([]int, g.N)
+	for i, v := range p {
+		inv[v] = i
+	}
+	h := &EG{N: g.N}
+	for _, e := range g.Edges {
+		egAdd(h, inv[e[0]], inv[e[1]])
+	}
+	h.norm()
+	return h.key(), "", ""
+}
+
+type egCanonCase struct {
+	Name  string   `json:"name"`
+	N     int      `json:"n"`
+	Edges [][2]int `json:"edges"`
+	Perm  []int    `json:"relabelling"`
+}
+
+func checkEGInvariance(ec egCanonCase) *Failure {
+	g := &EG{N: ec.N, Edges: ec.Edges}
+	g.norm()
+	base, cl, what := egCanon(g)
+	if cl != "" {
+		return &Failure{Class: cl, What: ec.Name + ": " + what, Kind: "canon-eg", Replay: ec}
+	}
+	x, cl, what := egCanon(egRelabel(g, ec.Perm))
+	if cl != "" {
+		return &Failure{Class: cl, What: ec.Name + " relabelled: " + what, Kind: "canon-eg", Replay: ec}
+	}
+	if x != base {
+		return &Failure{Class: "canonical/not-invariant-under-relabelling/named:" + ec.Name, What: fmt.Sprintf("%s (n=%d): relabelling %v changes the canonical graph", ec.Name, ec.N, ec.Perm), Kind: "canon-eg", Replay: ec}
+	}
+	return nil
+}
+
+func c01Huge(c *Ctx) {
+	var gs []lgraph
+	add := func(name string, g *EG) { g.norm(); gs = append(gs, lgraph{name: name, g: g}) }
+	egUnion := func(a, b *EG) *EG {
+		g := &EG{N: a.N + b.N, Edges: append([][2]int{}, a.Edges...)}
+		for _, e := range b.Edges {
+			g.Edges = append(g.Edges, [2]int{e[0] + a.N, e[1] + a.N})
+		}
+		return g
+	}
+	fromB := func(b *BGr) *EG { return &EG{N: b.n, Edges: b.edgeList()} }
+	// an asymmetric ("rigid") tree: caterpillar whose i-th spine vertex carries i mod 5 leaves
+	rigid := func(n int) *EG {
+		g := &EG{N: n}
+		spine := 0
+		v := 1
+		for v < n {
+			egAdd(g, spine, v) // next spine vertex
+			nextSpine := v
+			v++
+			for l := 0; l < (nextSpine*7)%5 && v < n; l++ {
+				egAdd(g, nextSpine, v)
+				v++
+			}
+			spine = nextSpine
+		}
+		return g
+	}
+	coC3C4 := fromB(circulant(3, 1).union(circulant(4, 1)).complement())
+	add("rigid64+co(C3+C4)", egUnion(rigid(64), coC3C4))
+	add("rigid70+petersen", egUnion(rigid(70), fromB(hardGraphs()["petersen"])))
+	add("rigid60+C3+C4+C4", egUnion(rigid(60), fromB(circulant(3, 1).union(circulant(4, 1)).union(circulant(4, 1)))))
+	add("2x-rigid40+K4", egUnion(egUnion(rigid(40), rigid(40)), fromB(completeB(4))))
+	add("rigid66+K3,3", egUnion(rigid(66), fromB(circulant(6, 1, 3))))
+	lcg := &EG{N: 80}
+	x := uint64(777)
+	for i := 0; i < 80; i++ {
+		for j := 0; j < i; j++ {
+			x = x*6364136223846793005 + 1442695040888963407
+			if (x>>33)%11 == 0 {
+				egAdd(lcg, j, i)
+			}
+		}
+	}
+	add("lcg80", lcg)
+	add("grid9x9", func() *EG {
+		g := &EG{N: 81}
+		for i := 0; i < 9; i++ {
+			for j := 0; j < 9; j++ {
+				if j < 8 {
+					egAdd(g, i*9+j, i*9+j+1)
+				}
+				if i < 8 {
+					egAdd(g, i*9+j, i*9+9+j)
+				}
+			}
+		}
+		return g
+	}())
+	for _, lg := range gs {
+		g := lg.g
+		n := g.N
+		base, cl, what := egCanon(g)
+		if cl != "" {
+			c.Fail(&Failure{Class: cl, What: lg.name + ": " + what, Kind: "canon-eg", Replay: egCanonCase{Name: lg.name, N: n, Edges: g.Edges, Perm: genTau(n)}})
+			continue
+		}
+		var perms [][]int
+		special := []int{0, 1, 2, n / 2, 62, 63, 64, 65, n - 8, n - 7, n - 6, n - 5, n - 4, n - 3, n - 2, n - 1}
+		for i, a := range special {
+			for _, b := range special[:i] {
+				if a != b && a < n && b < n {
+					p := make([]int, n)
+					for k := range p {
+						p[k] = k
+					}
+					p[a], p[b] = b, a
+					perms = append(perms, p)
+				}
+			}
+		}
+		perms = append(perms, relabelBattery(n, false, 0)...)
+		k := 8
+		if c.Thorough() {
+			k = 80
+		}
+		for s := 1; s <= k; s++ {
+			perms = append(perms, lcgPerm(n, uint64(s)*2741+uint64(n)))
+		}
+		name := lg.name
+		c.parFor(int64(len(perms)), 4, func(lo, hi int64) {
+			for _, p := range perms[lo:hi] {
+				x, cl, _ := egCanon(egRelabel(g, p))
+				c.Evals(1)
+				if cl != "" || x != base {
+					ec := egCanonCase{Name: name, N: n, Edges: g.Edges, Perm: p}
+					c.Check(func() *Failure { return checkEGInvariance(ec) })
+				}
+			}
+		})
+		c.Nontrivial(int64(len(perms)))
+		c.Count("huge_"+name+"_relabellings", int64(len(perms)))
 	}
 }
 
